@@ -831,24 +831,16 @@ func (g *Generator) getMethodPath(method *protogen.Method, basePath string, pack
 	// Try to get custom path from options
 	customPath := g.getCustomPath(method)
 
-	// If we have both base path and custom path, combine them
-	if basePath != "" && customPath != "" {
-		// Ensure proper path joining
-		basePath = strings.TrimSuffix(basePath, "/")
-		if !strings.HasPrefix(customPath, "/") {
-			customPath = "/" + customPath
-		}
-		return basePath + customPath
-	}
-
-	// If only custom path, use it
+	// Combine base path and custom path with the joiner the client and
+	// OpenAPI generators use, so that every generator publishes the same route
+	// (leading slash ensured, exactly one slash at the joint).
 	if customPath != "" {
-		return customPath
+		return annotations.BuildHTTPPath(basePath, customPath)
 	}
 
 	// Generate default path
 	if basePath != "" {
-		return fmt.Sprintf("%s/%s", strings.TrimSuffix(basePath, "/"), camelToSnake(method.GoName))
+		return annotations.BuildHTTPPath(basePath, camelToSnake(method.GoName))
 	}
 
 	return fmt.Sprintf("/%s/%s", packageName, camelToSnake(method.GoName))
